@@ -313,3 +313,90 @@ def teardown(job, acc):
 def replay(prop, rp, acc):
     monitors.install_all()
     return run_text(prop, rp["model"], rp["text"], acc, rp.get("seed"), rp.get("dialect", ""), rp.get("mechanism_free", False))
+
+
+# ------------------------------------------------------------------------------------------------ micro-universe
+# "all sequences of book / finish-and-release operations on one slot" (C01's quantifier): every small project of
+# 2-3 sub-slot tasks on ONE resource, so that the tasks meet inside the same slots in every order the real scheduler
+# can produce.  Complete in thorough, seeded 1/8 slice in quick.  Used by C01, C03 and C06.
+
+MICRO_EFFORTS = (10, 20, 25, 30, 45, 60, 90)
+
+
+def micro_universe():
+    import itertools
+    from datetime import datetime
+    base = datetime(2025, 3, 3)
+    idx = 0
+    for n in (2, 3):
+        pairs = [(i, j) for i in range(n) for j in range(n) if i != j]
+        from .c07 import _acyclic
+        dags = [em for em in range(1 << len(pairs)) if _acyclic(n, [pairs[k] for k in range(len(pairs)) if (em >> k) & 1])]
+        for em in dags:
+            edges = [pairs[k] for k in range(len(pairs)) if (em >> k) & 1]
+            for efforts in itertools.product(MICRO_EFFORTS, repeat=n):
+                if n == 3 and sum(1 for e in efforts if e in (25, 90)) > 1:
+                    continue      # keep the 3-task universe tractable: at most one "odd" effort
+                for alap in (False, True):
+                    for eff in (1.0, 0.5):
+                        for gap in ((0,) if not edges else (0, 15)):
+                            for prio_rev in (False, True):
+                                yield idx, (n, edges, efforts, alap, eff, gap, prio_rev, base)
+                                idx += 1
+
+
+def micro_model(spec):
+    n, edges, efforts, alap, eff, gap, prio_rev, base = spec
+    m = dict(res=60, start=base, weeks=2, alap=alap, shifts={}, groups=[], pid="mu", resources=[dict(id="r0", eff=eff)])
+    tasks = []
+    for i in range(n):
+        t = dict(path=("t%d" % i,), container=False, effort_min=efforts[i], alloc=["r0"], priority=(300 + 100 * i) if not prio_rev else (800 - 100 * i))
+        deps = [dict(to=("t%d" % j,), **({"gap_min": gap} if gap else {})) for (a, j) in edges if a == i]
+        if deps:
+            t["deps"] = deps
+        tasks.append(t)
+    if alap:
+        succ = {j for (a, j) in edges}
+        for i, t in enumerate(tasks):
+            if i not in succ:
+                t["end"] = base + __import__("datetime").timedelta(days=4, hours=17)
+    m["tasks"] = tasks
+    gen.assign_decl(m)
+    m["acyclic"] = True
+    return m
+
+
+def worker(job, acc):
+    import signal
+    import time
+    from ..worker import CaseTimeout, generic_loop
+    prop = job["prop"]
+    t0 = time.time()
+    if prop in ("C01", "C03", "C06"):
+        W, w = job["nworkers"], job["widx"]
+        done = True
+        for idx, spec in micro_universe():
+            if idx % W != w:
+                continue
+            if job["tier"] == "quick" and (idx * 2654435761 + job["seed"] * 97) % 8 != 0:
+                continue
+            if time.time() - t0 > job.get("budget_s", 600) * 0.5:
+                acc.count("micro-universe-truncated-by-budget")
+                done = False
+                break
+            m = micro_model(spec)
+            signal.alarm(job.get("case_timeout", 30))
+            try:
+                run_text(prop, m, gen.render(m), acc, idx, "micro-universe", False, record=True)
+                acc.count("cases")
+                acc.count("micro-universe-cases")
+            except CaseTimeout:
+                acc.count("case-timeout")
+            finally:
+                signal.alarm(0)
+        if done and job["tier"] == "thorough":
+            acc.count("micro-universe-slice-complete")
+    generic_loop(sys.modules[__name__], job, acc, t0)
+
+
+import sys  # noqa: E402
